@@ -269,7 +269,7 @@ class DQN(RLAlgorithm):
         use_policy = (
             torch.empty(masked_policy_actions.shape, device=q_values.device)
             .uniform_()
-            .gt(epsilon)
+            .ge(epsilon)
         )
 
         # Recompute actions with masking
